@@ -1639,6 +1639,10 @@ class GroupBy:
         """
         from ..emas import ema_grouped
 
+        if self.key_is_chunked:
+            # the kernels need global codes, not per-chunk local codes
+            self._unify_group_key_chunks()
+
         value_names, value_list, type_list, common_index = self._preprocess_arguments(
             values, mask
         )
@@ -2326,6 +2330,10 @@ class GroupBy:
         max_diff: float | int
             The threshold distance for forming a new sub-group
         """
+        if self.key_is_chunked:
+            # the kernel needs global codes, not per-chunk local codes
+            self._unify_group_key_chunks()
+
         return numba_funcs.group_nearby_members(
             group_key=self.group_ikey,
             values=values,
